@@ -1,6 +1,7 @@
 package h264
 
 import (
+	"github.com/cnotch/ipchub/av/codec"
 	"github.com/cnotch/ipchub/utils/bits"
 	"github.com/cnotch/ipchub/zzverif/symapi"
 )
@@ -153,5 +154,87 @@ func VerifScalingList() {
 	r := bits.NewReader(w.buf)
 	sps.scanList(r, idx)
 	symapi.Assert(r.Offset() == want, "scaling-list-consumes-the-standard-number-of-bits")
+	symapi.Reach("end")
+}
+
+func (w *verifBitW) u(nbits int, v uint32) {
+	for i := nbits - 1; i >= 0; i-- {
+		w.bit(byte(v>>uint(i)) & 1)
+	}
+}
+
+func (w *verifBitW) ue(v uint32) {
+	n := 0
+	for (v+1)>>uint(n+1) != 0 {
+		n++
+	}
+	w.u(n, 0)
+	w.u(n+1, v+1)
+}
+
+// verifBaselineSps writes a baseline-profile SPS (7.3.2.1.1) of wmbs x hmbs macroblocks, with
+// optional frame cropping and optional VUI timing information.
+func verifBaselineSps(wmbs, hmbs uint32, crop [4]uint32, cropping, timing bool) []byte {
+	w := &verifBitW{}
+	w.u(8, 0x67)
+	w.u(8, 66) // profile_idc: baseline (no chroma / scaling block)
+	w.u(8, 0xc0)
+	w.u(8, 31)
+	w.ue(0)   // seq_parameter_set_id
+	w.ue(4)   // log2_max_frame_num_minus4
+	w.ue(2)   // pic_order_cnt_type 2: nothing more
+	w.ue(1)   // max_num_ref_frames
+	w.u(1, 0) // gaps_in_frame_num_value_allowed_flag
+	w.ue(wmbs - 1)
+	w.ue(hmbs - 1)
+	w.u(1, 1) // frame_mbs_only_flag
+	w.u(1, 1) // direct_8x8_inference_flag
+	if cropping {
+		w.u(1, 1)
+		for _, c := range crop {
+			w.ue(c)
+		}
+	} else {
+		w.u(1, 0)
+	}
+	if timing {
+		w.u(1, 1) // vui_parameters_present_flag
+		w.u(4, 0) // aspect_ratio_info, overscan_info, video_signal_type, chroma_loc_info: absent
+		w.u(1, 1) // timing_info_present_flag
+		w.u(32, 0x01010101)
+		w.u(32, 0x32323232)
+		w.u(1, 1) // fixed_frame_rate_flag
+		w.u(4, 0) // nal_hrd, vcl_hrd, pic_struct, bitstream_restriction: absent
+	} else {
+		w.u(1, 0)
+	}
+	w.u(1, 1) // rbsp_stop_one_bit
+	return w.buf
+}
+
+// VerifSpsPerStream: what MetadataIsReady reports for a stream depends on that stream's SPS
+// only - not on which SPS (with other optional branches: cropping, VUI timing) was decoded
+// before it, for another stream or an earlier parameter set of the same one.
+func VerifSpsPerStream() {
+	prevCrop := symapi.Bool("previousSpsCropped")
+	prevTiming := symapi.Bool("previousSpsHasTiming")
+	prev := verifBaselineSps(80, 45, [4]uint32{0, 0, 0, 4}, prevCrop, prevTiming)
+	curCrop := symapi.Bool("thisSpsCropped")
+	curTiming := symapi.Bool("thisSpsHasTiming")
+	cur := verifBaselineSps(120, 68, [4]uint32{0, 0, 0, 4}, curCrop, curTiming)
+	pps := []byte{0x68, 0xce, 0x3c, 0x80}
+	m1 := &codec.VideoMeta{Codec: "H264", Sps: prev, Pps: pps}
+	symapi.Assert(MetadataIsReady(m1), "previous-stream-ready")
+	m2 := &codec.VideoMeta{Codec: "H264", Sps: cur, Pps: pps}
+	symapi.Assert(MetadataIsReady(m2), "this-stream-ready")
+	var fresh RawSPS
+	symapi.Assert(fresh.Decode(cur) == nil, "sps-decodes")
+	symapi.Assert(m2.Width == fresh.Width() && m2.Height == fresh.Height(), "dimensions-from-this-sps-only")
+	symapi.Assert(m2.FixedFrameRate == fresh.IsFixedFrameRate(), "fixed-rate-flag-from-this-sps-only")
+	wantH := 68 * 16
+	if curCrop {
+		wantH -= 2 * 4
+	}
+	symapi.Assert(m2.Width == 1920 && m2.Height == wantH, "dimensions-equal-the-standard")
 	symapi.Reach("end")
 }
